@@ -144,7 +144,11 @@ func c03ArgumentRoles(r *Run) {
 }
 
 // connMuHeld returns the instructions of fn that execute while the receiver's connMu is held.
-func connMuHeld(fn *ssa.Function) map[ssa.Instruction]bool {
+func connMuHeld(fn *ssa.Function) map[ssa.Instruction]bool { return mutexHeld(fn, "connMu") }
+
+// mutexHeld returns the instructions of fn that execute while the receiver's mutex field of
+// that name is held (Lock or RLock).
+func mutexHeld(fn *ssa.Function, mutex string) map[ssa.Instruction]bool {
 	held := map[ssa.Instruction]bool{}
 	type site struct {
 		call ssa.CallInstruction
@@ -160,7 +164,7 @@ func connMuHeld(fn *ssa.Function) map[ssa.Instruction]bool {
 			return
 		}
 		key, base, m, ok := mutexCall(c)
-		if !ok || !strings.HasSuffix(key, ".connMu") {
+		if !ok || !strings.HasSuffix(key, "."+mutex) {
 			return
 		}
 		switch m {
@@ -253,4 +257,76 @@ func c10GuardedBy(r *Run) {
 		}
 	}
 	r.Floor(rule, "accesses of guarded transport fields", n, 20)
+}
+
+// ---- startGate-guarded state and calls into the core under connMu ----
+
+func init() {
+	registry["C10"].Rules = append(registry["C10"].Rules,
+		Rule{Name: "C10-R17-seal-under-startGate", Doc: "the transports' Stop seal (the stopping flag) is read and written only while startGate is held: a bring-up that holds the read side sees the seal either before Stop set it or after, never in between — the ordering the Add-before-Wait argument of Close rests on", Run: c10SealUnderGate},
+		Rule{Name: "C10-R18-no-core-call-under-connMu", Doc: "no call into the core runtime (rt.…) is made while a transport's connMu is held: connMu is a short critical section around the handle fields, and the core takes its own locks and may call back into the transport", Run: c10NoCoreCallUnderConnMu})
+}
+
+func c10SealUnderGate(r *Run) {
+	const rule = "C10-R17-seal-under-startGate"
+	w := r.W
+	n := 0
+	for _, pkg := range []string{"hsmsss", "secs1"} {
+		fStop := w.Field(pkg, "transport", "stopping")
+		for _, fn := range w.FnsInPkg(pkg) {
+			if !w.IsProd(fn) || fn.Name() == "newTransport" {
+				continue
+			}
+			held := mutexHeld(fn, "startGate")
+			eachInstr(fn, func(in ssa.Instruction) {
+				var addr ssa.Value
+				kind := ""
+				switch x := in.(type) {
+				case *ssa.Store:
+					addr, kind = x.Addr, "write"
+				case *ssa.UnOp:
+					addr, kind = x.X, "read"
+				}
+				if addr == nil || !isFieldRef(addr, fStop) {
+					return
+				}
+				n++
+				r.Analysed(w.FnName(fn))
+				r.Check(held[in], rule, fmt.Sprintf("%s: %s of t.stopping under startGate", w.FnName(fn), kind), in.Pos(), "inside a startGate Lock/RLock region", "the seal is "+kind+" outside startGate: a bring-up can pass its seal check and register goroutines while Stop is already past its joins")
+			})
+		}
+	}
+	r.Floor(rule, "accesses of the stopping flag", n, 6)
+}
+
+func c10NoCoreCallUnderConnMu(r *Run) {
+	const rule = "C10-R18-no-core-call-under-connMu"
+	w := r.W
+	n, nHeld := 0, 0
+	for _, pkg := range []string{"hsmsss", "secs1"} {
+		fRT := w.Field(pkg, "transport", "rt")
+		for _, fn := range w.FnsInPkg(pkg) {
+			if !w.IsProd(fn) {
+				continue
+			}
+			held := connMuHeld(fn)
+			if len(held) > 0 {
+				nHeld++
+			}
+			eachInstr(fn, func(in ssa.Instruction) {
+				c, ok := in.(ssa.CallInstruction)
+				if !ok || !c.Common().IsInvoke() {
+					return
+				}
+				ld, ok := c.Common().Value.(*ssa.UnOp)
+				if !ok || !isFieldRef(ld.X, fRT) {
+					return
+				}
+				n++
+				r.Check(!held[in], rule, fmt.Sprintf("%s: rt.%s outside connMu", w.FnName(fn), c.Common().Method.Name()), in.Pos(), "connMu not held", "the core is called while connMu is held: the core takes its own locks and calls back into the transport (Stop, Write), which need connMu")
+			})
+		}
+	}
+	r.Floor(rule, "calls into the core runtime", n, 20)
+	r.Floor(rule, "functions with a connMu section", nHeld, 6)
 }
